@@ -71,19 +71,20 @@ func (r Registry) ResolveDecoderType(rr Reader, t string) (encoding.ContentTypeI
 		}
 	}
 
-	if mb, ok := rr.GetMagicBytes(); ok {
-		for _, resolver := range r.MagicBytesResolvers {
-			if cti, ok := resolver.ResolveMagicBytes(mb); ok {
-				return cti, true
-			}
-		}
-	}
-
+	// a registered file extension says more than a guess from the first bytes: literals may hold markup or JSON
 	if fileName, ok := rr.GetFileName(); ok {
 		fileNameLower := strings.ToLower(fileName)
 
 		for fileExt, cti := range r.FileExts {
 			if strings.HasSuffix(fileNameLower, fileExt) {
+				return cti, true
+			}
+		}
+	}
+
+	if mb, ok := rr.GetMagicBytes(); ok {
+		for _, resolver := range r.MagicBytesResolvers {
+			if cti, ok := resolver.ResolveMagicBytes(mb); ok {
 				return cti, true
 			}
 		}
